@@ -264,6 +264,10 @@ class LinesTransportMixin:
         tags: list[str] | None = None,
     ) -> bytes:
         data = await asyncio.wait_for(self.get_reader().readline(), timeout)
+        if not data.endswith(b"\n"):
+            # EOF: readline() returns what was buffered so far. An incomplete
+            # line is not a message; report the end of the stream instead.
+            data = b""
         d = data.decode().strip()
 
         t = tags + ["read"] if tags is not None else ["read"]
